@@ -45,8 +45,10 @@ func ReadIntoGraph(ctx context.Context, g storage.Graph, r io.Reader, b literal.
 		if err != nil {
 			return cnt, err
 		}
+		if err := g.AddTriples(ctx, []*triple.Triple{t}); err != nil {
+			return cnt, err
+		}
 		cnt++
-		g.AddTriples(ctx, []*triple.Triple{t})
 	}
 	return cnt, nil
 }
